@@ -63,6 +63,9 @@ def cases(draw, prof):
         npts = draw(st.integers(1, 3))
         ts = sorted(set([Y + i * draw(st.sampled_from([dt, 2.5 * dt, 1.0])) for i in range(npts)]))
         ys = [draw(st.sampled_from([0.0, 0.1, 0.5, 1.0, 3.0, 20.0])) for _ in ts]
+        if len(ts) > 1 and draw(st.integers(0, 2)) == 0:
+            order = draw(st.permutations(list(range(len(ts)))))  # overwrite points listed in any order: the first point in TIME is Y
+            ts, ys = [ts[i] for i in order], [ys[i] for i in order]
         pops = draw(st.lists(st.sampled_from(spec["pops"]), unique=True, min_size=1)) if tgt[0] == "par" else None
         case.update(target=list(tgt), pops=pops, t=ts, y=ys, interp=draw(st.sampled_from(["linear", "previous"])))
     else:
